@@ -6,7 +6,11 @@
 use super::types::UndeclaredFixture;
 use super::FixtureDatabase;
 use rustpython_parser::ast::{Expr, Stmt};
+#[cfg(not(pytest_language_server_verif))]
 use std::collections::{HashMap, HashSet};
+// verification hook: solver-friendly set/map stand-ins of the harness crate (see /verif/DESIGN.md §9)
+#[cfg(pytest_language_server_verif)]
+use crate::verif_collections::{HashMap, HashSet};
 use std::path::{Path, PathBuf};
 use tracing::info;
 
